@@ -149,7 +149,7 @@ class Prop(PropBase):
                 a, b = L.module_level_walrus(e)
                 top |= a
                 in_comp |= b
-            imported = {L.stmt_binding_name(s) for s in case.get('imports', [])}
+            imported = {n for s in case.get('imports', []) for n in L.stmt_binding_names(s)}
             if obs.get('pyimport_error') and not obs.get('oracle_import_error'):
                 out.append(fail('imports-readable', f'pyimport of {R.import_source(case["imports"])!r} raised '
                                                     f'{obs["pyimport_error"]}; plain Python imports it fine',
@@ -180,7 +180,7 @@ class Prop(PropBase):
             for i, (mine, want) in enumerate(zip(obs['plain_results'], obs['plain_eval'])):
                 a, b = L.module_level_walrus(case['exprs'][i])
                 calls_id = any(x[0] == 'call' and x[1] == ['name', 'id'] for x in L.walk(case['exprs'][i]))
-                if mine != want and not calls_id and not b:      # id() of two copies differs by nature
+                if mine != want and not calls_id and not b and not obs.get('pyimport_error'):      # id() of two copies differs by nature
                     reads_import = any(x[0] == 'name' and x[1] in imported and x[1] not in case_keys
                                        for x in L.walk(case['exprs'][i]))
                     reads_leaked = any(x[0] == 'name' and x[1] in seen_top for x in L.walk(case['exprs'][i]))
@@ -359,23 +359,25 @@ class Prop(PropBase):
                     feats.add('append')
         if any(k in G.BUILTINS for k, _ in case['ctx']):
             feats.add('ctx-shadows-builtin')
-        for st in (case.get('imports') or []) + [x for x in case.get('block', []) if x[0] in ('import', 'importas', 'from')]:
+        for st in (case.get('imports') or []) + [x for x in case.get('block', []) if x[0] in L.IMPORT_KINDS]:
             if st[0] == 'import' and '.' in st[1]:
                 feats.add('import:dotted-unaliased')
             elif st[0] == 'importas':
                 feats.add('import:dotted-aliased' if '.' in st[1] else 'import:aliased')
             elif st[0] == 'from' and '.' in st[1]:
                 feats.add('import:from-dotted')
+            elif st[0] == 'fromn':
+                feats.add('import:from-several-names')
         if case.get('pkg'):
             feats.add('throwaway-package')
         if case.get('steps'):
             feats.add(f"pyimport-steps:{sum(1 for st in case['steps'] if st[0] == 'import')}")
-            names = [L.stmt_binding_name(x) for st in case['steps'] if st[0] == 'import' for x in st[1]]
+            names = [n for st in case['steps'] if st[0] == 'import' for x in st[1] for n in L.stmt_binding_names(x)]
             if len(names) != len(set(names)):
                 feats.add('pyimport-rebinds-name')
         if case.get('imports'):
             feats.add('pyimport')
-            if any(L.stmt_binding_name(s) in {k for k, _ in case['ctx']} for s in case['imports']):
+            if any(n in {k for k, _ in case['ctx']} for s in case['imports'] for n in L.stmt_binding_names(s)):
                 feats.add('ctx-shadows-import')
         if case['kind'] == 'exec':
             for s in case['block']:
